@@ -89,8 +89,18 @@ class C13(PropertyCheck):
                 direct = [int(x) for x in s2]
                 # asking for an epoch explicitly must not depend on the object's history either
                 explicit = [int(x) for x in s.get_samples_for_epoch(case["init_epoch"])]
+                # iterators obtained first and consumed later, in reverse order: an epoch's order must
+                # not depend on what else was requested from the object in the meantime
+                s3 = make(case["kind"], case["N"], case["init_epoch"], case["seed"], case["mode"])
+                its = [iter(s3) for _ in range(case["consumed"] + 1)]
+                extra_it = s3.get_samples_for_epoch(case["init_epoch"] + case["consumed"] + 1)
+                lazy = [None] * len(its)
+                for j in reversed(range(len(its))):
+                    lazy[j] = [int(x) for x in its[j]]
+                del extra_it
                 ranks.append({"init": "ok", "len": ln, "len_after": lens_after, "yields": ys,
-                              "final_epoch": int(s.epoch), "direct_last": direct, "explicit_first": explicit})
+                              "final_epoch": int(s.epoch), "direct_last": direct, "explicit_first": explicit,
+                              "lazy_yields": lazy})
         return {"ranks": ranks}
 
     def model_request(self, case):
@@ -112,6 +122,8 @@ class C13(PropertyCheck):
                 out.append(f"rank {r}: len impl={a['len']} model={b['len']}")
             if a["yields"] != b["yields"]:
                 out.append(f"rank {r}: yields impl={a['yields']} model={b['yields']}")
+            if a["lazy_yields"] != b["yields"]:
+                out.append(f"rank {r}: lazily consumed yields impl={a['lazy_yields']} model={b['yields']}")
             if a["final_epoch"] != b["final_epoch"]:
                 out.append(f"rank {r}: epoch impl={a['final_epoch']} model={b['final_epoch']}")
         return out
@@ -143,6 +155,9 @@ class C13(PropertyCheck):
             if r["direct_last"] != r["yields"][-1]:
                 fails.append((f"rank {ri}: epoch {case['init_epoch'] + case['consumed']} differs between a sampler "
                               f"iterated {case['consumed']} times and one started there", None))
+            if r["lazy_yields"] != r["yields"]:
+                fails.append((f"rank {ri}: the order yielded for an epoch depends on when its iterator is consumed "
+                              f"(iterators taken first, consumed later: {r['lazy_yields']} vs {r['yields']})", None))
             if r["explicit_first"] != r["yields"][0]:
                 fails.append((f"rank {ri}: get_samples_for_epoch differs after iteration", None))
         for e, p in enumerate(perms):
